@@ -409,3 +409,29 @@ package modbus
 //@   ensures[C05] !implements(response, RegistersResponse) && implements(response, CoilsResponse) ==> coilsExtractedA(r, continueOnExtractionErrors, res, err)
 //@   ensures[C05] !implements(response, RegistersResponse) && implements(response, CoilsResponse) ==> coilsExtractedB(r, res)
 //@   ensures[C05] !implements(response, RegistersResponse) && !implements(response, CoilsResponse) ==> err != nil && len(res) == 0
+
+// ---------------------------------------------------------------------------------------------
+// splitter.go: grouping and batching (C06, C05)
+
+//@ func (bs *builderSlots) IndexOf(address uint16) (res int)
+//@   requires bs != nil
+//@   safety[C06,C10]
+//@   modifies[C06] nothing
+//@   ensures[C06] res == -1 ==> forall k in 0..len(deref(bs)) :: deref(bs)[k].address != address
+//@   ensures[C06] res != -1 ==> 0 <= res && res < len(deref(bs)) && deref(bs)[res].address == address
+//@   ensures[C06] res != -1 ==> forall k in 0..res :: deref(bs)[k].address != address
+//@   loop 0
+//@     invariant -1 <= rangeindex && rangeindex < len(deref(bs))
+//@     invariant forall k in 0..rangeindex+1 :: deref(bs)[k].address != address
+
+//@ func (g *builderSlotGroup) AddField(f Field)
+//@   requires g != nil && groupInv(g) && fieldOfGroup(g, f)
+//@   safety[C06,C10]
+//@   modifies hdr(g.slots), g.slots
+//@   ensures[C06] groupInv(g)
+//@   ensures[C06] g.serverAddress == old(g.serverAddress) && g.unitID == old(g.unitID) && g.isForCoils == old(g.isForCoils)
+//@   ensures[C06] !old(hasSlot(g, f.Address)) ==> len(g.slots) == old(len(g.slots)) + 1 && g.slots[len(g.slots)-1].address == f.Address && int(g.slots[len(g.slots)-1].size) == fieldRegs(f) && len(g.slots[len(g.slots)-1].fields) == 1 && g.slots[len(g.slots)-1].fields[0] == f
+//@   ensures[C06] old(hasSlot(g, f.Address)) ==> len(g.slots) == old(len(g.slots))
+//@   ensures[C06] forall k in 0..old(len(g.slots)) :: g.slots[k].address == old(g.slots[k].address) && (g.slots[k].address != f.Address ==> g.slots[k].size == old(g.slots[k].size) && len(g.slots[k].fields) == old(len(g.slots[k].fields)))
+//@   ensures[C06] forall k in 0..old(len(g.slots)) :: forall m in 0..old(len(g.slots[k].fields)) :: g.slots[k].fields[m] == old(g.slots[k].fields[m])
+//@   ensures[C06] forall k in 0..old(len(g.slots)) :: g.slots[k].address == f.Address ==> len(g.slots[k].fields) == old(len(g.slots[k].fields)) + 1 && g.slots[k].fields[len(g.slots[k].fields)-1] == f && int(g.slots[k].size) == ite(fieldRegs(f) > old(int(g.slots[k].size)), fieldRegs(f), old(int(g.slots[k].size)))
